@@ -10,7 +10,7 @@
    byte-exact generator correspondence and judged on the reference machine. *)
 From Coq Require Import ZArith List String Bool.
 From Gigue Require Import Types Bits Isa Enc GenTables Builder BuilderTies Samplers Generator Machine MachineLemmas
-  SplitProofs FragProofs GenLemmas ImageSem CtorSpec C12Defs C12Proofs GenWF GenWFProps SliceLemmas FloatSign GenWF2 BodyExec BodyBridge GenWF5 FrameExec CodeMem GenWF6 Witness.
+  SplitProofs FragProofs GenLemmas ImageSem CtorSpec C12Defs C12Proofs GenWF GenWFProps SliceLemmas FloatSign GenWF2 BodyExec BodyBridge GenWF5 FrameExec CodeMem SwitchExec GenWF6 GenWF8 GenWF9 Walk CallFrame MethodContract Witness.
 Import ListNotations.
 Open Scope Z_scope.
 
@@ -117,6 +117,38 @@ Theorem C02_leaf_methods_contract_partial : forall c script img,
     (im_methods img).
 Proof. exact leaf_methods_run. Qed.
 
+(* PROVED (Layer B, the method contract along the call graph; MethodContract /
+   Walk / CallFrame / GenWF9 + the pieces above) for the two variants without
+   isolation (with and without trampolines), every accepted configuration,
+   decision script and emitted image, every placement of the image in a code
+   region smaller than 2 GiB with the data section and the stack disjoint from
+   it:  EVERY method of the image - whatever its call depth - entered at its
+   first instruction with the image's words loaded at the recorded addresses,
+   any register contents such that the data register holds the data base, sp
+   8-aligned with  need  bytes of stack below it (need = the bound computed from
+   the call DAG, ImageSem.need_method):
+     - the reference machine, fetching and decoding the emitted bytes, executes
+       the method AND, RECURSIVELY, ALL ITS CALLEES without any fault and
+       returns to ra (low bit cleared);
+     - sp, s0, ra, the data register and every register outside the usable list
+       hold their entry values at the return;
+     - memory is unchanged outside the data image and outside the stack window
+       [sp - need, sp): total stack use never exceeds the DAG bound;
+     - dom and the CFI stack are unchanged.
+   Proof: induction on the call depth; a method that makes calls is walked
+   position by position (random instruction: one step; call site: call edge,
+   callee contract, return two positions later), between its frame prologue and
+   epilogue.  `_partial`: plain variants only (RIMI shadow-stack frames and FIXER
+   tagged calls are not composed), PIC switches (C05_pic_dispatch), trampolines
+   and the interpreter loop are not composed into a whole-image run. *)
+Theorem C02_every_method_contract_partial : forall c script img,
+  successful c script img -> plain c ->
+  forall L, placed c img L ->
+  forall id m, nth_error (im_methods img) id = Some m ->
+  contract c img L (need_method c (im_methods img) (max_depth (im_methods img)) id) m.
+Proof. exact every_method_returns. Qed.
+
+Print Assumptions C02_every_method_contract_partial.
 Print Assumptions C02_leaf_methods_contract_partial.
 Print Assumptions C02_data_reg_never_written.
 Print Assumptions C02_frames_symmetric_partial.
